@@ -64,5 +64,40 @@ theorem C06_hit_exprCnt (E : Env) (rec : Expr → PState → Outcome) (e : Expr)
   · simp [hb] at h
   · simp [hb] at h; obtain ⟨_, _, rfl⟩ := h; simp
 
+/-! ### kernel-evaluated witness of finding D7 (the model reproduces the code) -/
+
+namespace WitnessC06
+
+def lit (id : Nat) (s : String) : Expr := .lit id (s.toList.map (·.toNat)) false ("\"" ++ s ++ "\"")
+
+/-- `R <- S "!" / "a" S` ; `S <- x:"a"* l:"b" { return l, nil }` -/
+def rulesD7 : List Rule :=
+  [ { name := "R", displayName := "", leader := false, leftRecursive := false,
+      expr := .choice 1 1 6 [.seq 2 [.ruleRef 3 "S", lit 4 "!"], .seq 5 [lit 6 "a", .ruleRef 7 "S"]] },
+    { name := "S", displayName := "", leader := false, leftRecursive := false,
+      expr := .action 8 1 (.seq 9 [.labeled 10 "x" (.zeroOrMore 11 (lit 12 "a")), .labeled 13 "l" (lit 14 "b")]) } ]
+
+def envD7 (memo : Bool) : Env :=
+  { flags := { optimize := false, globalState := false, leftRec := false, basicLatin := false },
+    opts := { memoize := memo }, rules := rulesD7,
+    code := { args := fun _ => ["l"], run := fun _ ctx => { ret := ctx.args.headD .nil, state := ctx.state, global := ctx.global } },
+    toLower := id, input := "aab".toList.map (·.toNat) }
+
+/-- the second element of the result sequence of an error-free parse: `some (some b)` = the bytes `b`,
+    `some none` = nil; `none` = anything else -/
+def second : Final → Option (Option (List Nat))
+  | .ret (.list [_, .bytes b]) [] _ => some (some b)
+  | .ret (.list [_, .nil]) [] _ => some none
+  | _ => none
+
+/-- **Finding D7 on the model**: on `aab` the second alternative returns `["a", "b"]`; with
+    `Memoize(true)` the labelled expression `l:"b"` at offset 2 is answered from the memo table (it was
+    evaluated there by the first alternative), the label is not bound, and the action returns nil. -/
+theorem C06_D7_memo_hit_skips_label_binding :
+    second (parse (envD7 false) 40) = some (some [98]) ∧ second (parse (envD7 true) 40) = some none := by
+  decide
+
+end WitnessC06
+
 end RT
 end PV
